@@ -104,7 +104,16 @@ fn check_for_boolean_directive(
 
     let mut first_line = true;
 
-    for line in code[..subject_pos + 1].lines().rev()
+    /* Include the first character of the statement (which may be several bytes long) so that the
+     * current line is never empty.
+     */
+    let subject_end = subject_pos
+        + code[subject_pos..]
+            .chars()
+            .next()
+            .map_or(0, |first_char| first_char.len_utf8());
+
+    for line in code[..subject_end].lines().rev()
     {
         if first_line
         {
